@@ -901,12 +901,16 @@ fn body(class: &str, rng: &mut Rng) -> Vec<u8> {
         "crlf" => format!("#let   z =  3\r\nText {} here.\r\n", m).into_bytes(),
         // differs from its formatted form only in line terminators
         "formatted-crlf" => format!("#let {} = 1\r\n\r\nText {} here.\r\n", m.to_lowercase(), m).into_bytes(),
+        // already formatted, except that the import items are not sorted: changed iff --reorder-import-items is given
+        "formatted-unsorted-imports" => format!("#import \"lib.typ\": zeta, alpha, mid\n\nText {} here.\n", m).into_bytes(),
+        // blank-only documents (the formatter's smallest outputs)
+        "blank-only" => (*rng.pick(&["\n", "  ", "\t\n", " \n", "\n\n", " \n \n"])).as_bytes().to_vec(),
         "empty" => vec![],
         _ => format!("plain {} content   with   spaces\n", m).into_bytes(),
     }
 }
 
-const CLASSES: [&str; 12] = ["formatted", "unformatted", "unformatted", "erroneous", "invalid-utf8", "unreadable", "unwritable", "crlf", "empty", "formatted-nofinalnl-unformatted", "formatted-crlf", "formatted-nofinalnl-unformatted"];
+const CLASSES: [&str; 15] = ["formatted", "unformatted", "unformatted", "erroneous", "invalid-utf8", "unreadable", "unwritable", "crlf", "empty", "formatted-nofinalnl-unformatted", "formatted-crlf", "formatted-nofinalnl-unformatted", "formatted-unsorted-imports", "formatted-unsorted-imports", "blank-only"];
 
 fn style_args(rng: &mut Rng) -> Vec<String> {
     let mut v = vec![];
@@ -1060,6 +1064,12 @@ pub fn gen_step(files: &[FileSpec], prop: &str, rng: &mut Rng) -> Step {
                 if check {
                     args.push("--check".into());
                 }
+            }
+            // `-i` in front of the subcommand is accepted by the argument parser (its conflict with `--check` is only
+            // checked on the top level, and `--check` given after the subcommand arrives as a global): format-all must
+            // behave exactly as without it
+            if (!check || !global_first) && rng.chance(1, 5) {
+                args.push(if rng.chance(1, 2) { "-i".into() } else { "--inplace".into() });
             }
             args.push("format-all".into());
             if let Some(d) = &dir_arg {
@@ -1373,12 +1383,29 @@ pub fn run(prop: &str, tier: Tier) -> (RunMeta, Acc) {
             let mut rng = Rng::new(seed ^ 0xC16);
             // special sources
             let big: String = std.fixtures.iter().map(|c| c.text.as_str()).collect::<Vec<_>>().join("\n");
+            let mut n_special = 4;
             cases.push(crate::engine::Case::new(big, "concatenation of all fixtures (~560 kB)"));
             cases.push(crate::engine::Case::new("no final newline #let   x=1", "no-final-newline"));
             cases.push(crate::engine::Case::new("#let   x=1\r\n#let y  = 2\r\n", "crlf"));
             cases.push(crate::engine::Case::new("", "empty"));
+            // sources that differ from the library's text only in their line terminators, blank-only sources, and a source that
+            // only the reorder flag changes: every front-end has to produce the library's bytes for them as well
+            for (t, o) in [
+                ("= Title\r\n\r\nSome text.\r\n", "formatted apart from CRLF"),
+                ("#let f(x) = {\r\n  x + 1\r\n}\r\n", "formatted at tab 2 apart from CRLF"),
+                ("first\r\nsecond\nthird\r\n", "mixed CRLF/LF"),
+                ("= Title\r\rSome text.\r", "CR only"),
+                ("\n", "blank-only LF"),
+                ("  ", "blank-only spaces"),
+                ("\t\n", "blank-only tab"),
+                (" \n \n", "blank-only lines"),
+                ("#import \"lib.typ\": zeta, alpha, mid\n", "formatted apart from import order"),
+                ("Text.", "formatted apart from the final newline"),
+            ] {
+                cases.push(crate::engine::Case::new(t, o));
+                n_special += 1;
+            }
             // erroneous sources (printed verbatim) whose last line has no newline and straddles stdio buffer sizes
-            let mut n_special = 4;
             for len in [1000usize, 1023, 1024, 1025, 4095, 4096, 8191, 8192, 8193, 70_000] {
                 let tail = "1, ".repeat(len / 3 + 1);
                 cases.push(crate::engine::Case::new(format!("= Title\n#let x = ({}", &tail[..len]), format!("erroneous, unterminated last line of {} bytes", len)));
